@@ -7,7 +7,8 @@ import PyTrie.Model.HexRawT
     nodes fetched from the database) produce the node to store and the event list; the bookkeeping of `Model/HexWorld.lean`
     (`runEvs`, `setDbValue`, `completePruning`) applies them. The state of a trie is its root hash and its `prune` flag —
     nothing else. `Lemmas/FreeExec.lean`: on a complete database this executor and the tree-carrying one compute the
-    same thing, so every theorem about the latter (C01, C04, C06 …) is a theorem about this one. Plain (unbatched) stores. -/
+    same thing, so every theorem about the latter (C01, C04, C06 …) is a theorem about this one. The database object is a
+    plain dict or a `ScratchDB` in front of one (`storeDb`); `FWorld` adds `squash_changes` (one outer trie). -/
 namespace PyTrie.HexFree
 open PyTrie.Hex PyTrie.HexD PyTrie.HexW PyTrie.HexRaw PyTrie.HexRawT
 
@@ -17,6 +18,13 @@ structure Free where
   deriving Inhabited
 
 variable (H : Bytes → Bytes)
+
+/-- what the trie can read through its database object: the plain dict, or — for a `ScratchDB` — the buffered writes in
+    front of the wrapped dict (a buffered *delete* reads through to the wrapped dict: `ScratchDB.__getitem__`) -/
+def storeDb (st : Store) : Db :=
+  match st.cache with
+  | none => st.base
+  | some c => (c.filterMap fun e => e.2.map fun v => (e.1, v)) ++ st.base
 
 /-- `_set_root_node`, first half, from the fetched root node: a short old root is scheduled for pruning here -/
 def schedOldRootF (F : Free) (rootNode : Item) (s : OpSt) : OpSt :=
@@ -43,11 +51,11 @@ def bodyT (db : Db) (rootNode : Item) (key : Bytes) (val : Option Bytes) : St ×
 /-- body of `set` / `delete` inside `_prune_on_success` -/
 def freeCore (F : Free) (key : Bytes) (val : Option Bytes) (s : OpSt) : OpSt × Except Exn Free :=
   -- root_node = self.get_node(self.root_hash)
-  match getNodeT H { db := s.store.base, evs := [] } (.str F.root) with
+  match getNodeT H { db := storeDb s.store, evs := [] } (.str F.root) with
   | (_, .error (.missing h)) => (s, .error (.missingTrieNode h F.root key none))
   | (_, .error _) => (s, .error (.validation "undecodable-node"))
   | (_, .ok rootNode) =>
-    let r := bodyT H s.store.base rootNode key val
+    let r := bodyT H (storeDb s.store) rootNode key val
     match runEvs F.prune F.root key s r.1.evs with
     | (s1, some x) => (s1, .error x)
     | (s1, none) =>
@@ -69,7 +77,7 @@ def freeSetDel (F : Free) (key : Bytes) (val : Option Bytes) (s0 : OpSt) : OpSt 
 
 /-- `get`: the raw-level reader over the database -/
 def freeGet (F : Free) (key : Bytes) (s : OpSt) : Except Exn Bytes :=
-  match getD H s.store.base F.root (nibs key) with
+  match getD H (storeDb s.store) F.root (nibs key) with
   | .ok v => .ok v
   | .error (.missing h used) => .error (.missingTrieNode h F.root key (some used))
   | .error _ => .error .getErr
@@ -81,5 +89,71 @@ def freeRun (prune : Bool) : List (Bytes × Option Bytes) → Free × OpSt → E
     match freeSetDel H F k v s with
     | (s', .ok F') => freeRun prune rest (F', s')
     | (_, .error e) => .error e
+
+/-! ### `squash_changes` without trees: one outer trie over a plain dict, at most one open block -/
+
+structure FBatch where
+  cache : Dict (Option Bytes)
+  trie : Free
+  counts : Counts
+
+structure FWorld where
+  base : Dict Bytes := []
+  failAfter : Option Nat := none
+  outer : Free := ⟨[], false⟩
+  counts : Counts := []
+  batch : Option FBatch := none
+
+def FWorld.init (prune : Bool) : FWorld := { outer := ⟨blankRoot H, prune⟩ }
+
+def FWorld.opSt (w : FWorld) : OpSt :=
+  { store := { base := w.base, cache := none, failAfter := w.failAfter }, counts := w.counts, pending := [] }
+
+def FWorld.batchOpSt (w : FWorld) (b : FBatch) : OpSt :=
+  { store := { base := w.base, cache := some b.cache, failAfter := w.failAfter }, counts := b.counts, pending := [] }
+
+/-- `set` / `delete` on the outer trie (`inBatch = false`) or on the batch trie of the open block -/
+def FWorld.setDel (w : FWorld) (inBatch : Bool) (key : Bytes) (val : Option Bytes) : Except Exn Unit × FWorld :=
+  if !inBatch then
+    let (st', r) := freeSetDel H w.outer key val w.opSt
+    let w' : FWorld := { w with base := st'.store.base, failAfter := st'.store.failAfter, counts := st'.counts }
+    match r with
+    | .ok F' => (.ok (), { w' with outer := F' })
+    | .error e => (.error e, w')
+  else
+    match w.batch with
+    | none => (.error (.validation "no-batch"), w)
+    | some b =>
+      let (st', r) := freeSetDel H b.trie key val (w.batchOpSt b)
+      let b' : FBatch := { b with cache := st'.store.cache.getD [], counts := st'.counts }
+      let w' : FWorld := { w with base := st'.store.base, failAfter := st'.store.failAfter }
+      match r with
+      | .ok F' => (.ok (), { w' with batch := some { b' with trie := F' } })
+      | .error e => (.error e, { w' with batch := some b' })
+
+def FWorld.get (w : FWorld) (inBatch : Bool) (key : Bytes) : Except Exn Bytes :=
+  if !inBatch then freeGet H w.outer key w.opSt
+  else match w.batch with
+    | none => .error (.validation "no-batch")
+    | some b => freeGet H b.trie key (w.batchOpSt b)
+
+/-- `with trie.squash_changes() as batch:` -/
+def FWorld.batchBegin (w : FWorld) : FWorld :=
+  { w with batch := some { cache := [], trie := { w.outer with prune := true },
+                           counts := if w.outer.prune then w.counts else [] } }
+
+/-- leaving the block: `raised = true` when the body raised (nothing is committed) -/
+def FWorld.batchEnd (w : FWorld) (raised : Bool) : Except Exn Unit × FWorld :=
+  match w.batch with
+  | none => (.error (.validation "no-batch"), w)
+  | some b =>
+    if raised then (.ok (), { w with batch := none })
+    else
+      let (ok, base', fa') := commitLoop w.outer.prune b.cache w.base w.failAfter
+      if ok then
+        (.ok (), { w with base := base', failAfter := fa', batch := none,
+                          outer := { w.outer with root := b.trie.root },
+                          counts := if w.outer.prune then b.counts else w.counts })
+      else (.error .writeFailed, { w with base := base', failAfter := fa', batch := none })
 
 end PyTrie.HexFree
